@@ -305,6 +305,9 @@ class Builtins:
             return VBool(True)
         if z3.is_false(c):
             return NOTIMPL
+        if args[0].kind == "enum" and args[1].kind == "enum" and args[0].ecls is args[1].ecls:
+            # both sides run the same __eq__: NotImplemented on both ends in identity, i.e. the answer is `is`
+            return VBool(c)
         if self.ctx.no_branch or self.spec:
             # merged evaluation: NotImplemented falls through to reflected operand / identity, i.e. False here
             # only when the other operand defines no __eq__ of its own
@@ -450,7 +453,7 @@ class Builtins:
     def _anyall(self, args, node, is_any):
         a0 = args[0]
         if a0.kind == "slist":
-            k = self.ctx.fresh("k_q", I)
+            k = self.ctx.bound("k_q")
             n = self.ctx.slen(a0.z)
             t = self.truth(self.ctx.sitem(a0, k), node)
             rng = z3.And(0 <= k, k < n)
@@ -725,7 +728,7 @@ class Builtins:
         """first index whose item equals x"""
         n = self.ctx.slen(lst.z)
         r = self.ctx.fresh("index_res", I)
-        k = self.ctx.fresh("k_idx", I)
+        k = self.ctx.bound("k_idx")
         eq_at = lambda j: z3.Or(self.identical_or_false(self.ctx.sitem(lst, j), x), self.py_eq(self.ctx.sitem(lst, j), x, node))
         present = z3.Exists([k], z3.And(0 <= k, k < n, eq_at(k)))
         if not self.spec:
@@ -745,9 +748,7 @@ class Builtins:
         c = self.contracts.get(cf.fi.fq) if cf.fi else None
         ordn = self.comp_ordinal(cf.fi, e) if cf.fi else 0
         elem_t = c.locals.get(f"#comp{ordn}") if c else None
-        if elem_t is None:
-            raise EngineError(f"comprehension {ordn} over SMT list at line {e.lineno}: declare its element type as locals['#comp{ordn}']")
-        new = self.new_slist(elem_t, "comp")
+        holder = {"t": elem_t}
         def item(k):
             self.ctx.push_param(k, z3.And(0 <= k, k < n))
             self.ctx.no_branch += 1
@@ -757,8 +758,14 @@ class Builtins:
             finally:
                 self.ctx.no_branch -= 1
                 self.ctx.pop_param()
-            return elem_t.pack(v, self.ctx)
-        self.ctx.set_list(new, n, ("fn", item))
+            if holder["t"] is None:
+                holder["t"] = self.type_of_val(v)     # element type inferred from the element expression
+            return holder["t"].pack(v, self.ctx)
+        self.ctx.counter += 1
+        k0 = z3.Int(f"k!lr{self.ctx.counter}")
+        terms = item(k0)
+        new = self.new_slist(holder["t"], "comp")
+        self.ctx.set_list(new, n, ("fn", lambda k: [z3.substitute(t, (k0, k)) for t in terms]))
         return new
 
     def comp_ordinal(self, fi, node):
@@ -805,6 +812,7 @@ class Builtins:
     def instantiate_smt(self, cls, cm, args, kwargs, node):
         """allocate an object of a modelled class in the SMT heap and run its __init__ on it"""
         r = self.ctx.new_sref("new_" + cls.name)
+        self.ctx.assume(REF_TYPE(r) == TSObj(cm.name).tag())
         o = VSObj(r, cm.name)
         init = cls.find_method(self.index, "__init__")
         if init is not None:
